@@ -43,7 +43,7 @@ struct Ledger {
     std::map<const void *, Blk> blocks;     // outstanding
     std::map<const void *, Blk> quarantine; // freed in this case (really freed at the end of the case)
     std::vector<std::string> errs;
-    bool throw_next_copy = false, throw_next_ctor = false;
+    bool throw_next_copy = false, throw_next_ctor = false, throw_next_vt = false;
     int last_dispatch = -1;
     int op_index      = -1;
     void err(const std::string &m) { errs.push_back("op" + std::to_string(op_index) + ": " + m); }
@@ -192,6 +192,12 @@ struct VT : alpaqa::util::BasicVTable {
     VT(std::in_place_t, T &t) : BasicVTable{std::in_place, t} {
         get = alpaqa::util::type_erased_wrapped<T, &T::get>();
         set = alpaqa::util::type_erased_wrapped<T, &T::set>();
+        // a derived vtable whose constructor throws AFTER the payload has been built (as ControlProblemVTable does for a problem
+        // that lacks a required member): the wrapper must destroy the payload again and give the memory back
+        if (G.throw_next_vt) {
+            G.throw_next_vt = false;
+            throw PayloadThrow{};
+        }
     }
 };
 
@@ -217,6 +223,9 @@ struct Runner {
     using W = TE<A>;
     static_assert(sizeof(W) <= sizeof(slot_mem[0]));
     bool livef[NSLOT]{};
+    long vt_c0 = 0, vt_d0 = 0;
+    int vt_id0 = 0;
+    bool vt_pending = false;
     W *w(long i) { return std::launder(reinterpret_cast<W *>(slot_mem[i])); }
     PS *ext(long e) { return std::launder(reinterpret_cast<PS *>(ext_mem[e])); }
     bool ok(long i) const { return i >= 0 && i < NSLOT; }
@@ -255,7 +264,9 @@ struct Runner {
             case MkVal:
                 if (o.z != 16 && o.z != static_cast<long>(SBO) && o.z != 80) break;
                 kill(i);
-                G.throw_next_ctor = o.thr != 0;
+                G.throw_next_ctor = o.thr == 1;
+                G.throw_next_vt   = o.thr == 2;
+                vt_c0 = G.constructs, vt_d0 = G.destroys, vt_id0 = G.next_id, vt_pending = o.thr == 2;
                 if (o.z == 16)
                     new (mem) W{std::allocator_arg, A{static_cast<int>(o.a)}, std::in_place_type<PS>, static_cast<int>(o.v)};
                 else if (o.z == static_cast<long>(SBO))
@@ -341,12 +352,17 @@ struct Runner {
             }
         } catch (const PayloadThrow &) {
             code = RThrew;
+            // thr == 2 (vtable constructor threw): a correct wrapper has constructed and destroyed exactly one payload; that pair is
+            // taken out of the books so that the observable state equals the one of a throwing payload constructor (the model's case)
+            if (vt_pending && G.constructs == vt_c0 + 1 && G.destroys == vt_d0 + 1 && G.next_id == vt_id0 + 1)
+                --G.constructs, --G.destroys, --G.next_id;
         } catch (const alpaqa::util::bad_type_erased_constness &) {
             code = RConst;
         } catch (const alpaqa::util::bad_type_erased_type &) {
             code = RType;
         }
-        G.throw_next_copy = G.throw_next_ctor = false;
+        G.throw_next_copy = G.throw_next_ctor = G.throw_next_vt = false;
+        vt_pending = false;
         return {code, val, G.last_dispatch};
     }
 
